@@ -1,1 +1,233 @@
 import PQ.Model.ParseStruct
+import PQ.Model.Structs
+import PQ.Lemmas.ParseStruct
+/-!
+# C14 — excluded fields are inert and embedding equals inlining
+
+Everything after parsing (code generation, hence the bytes written) is a function of the field tree
+`parse.Fields` returns (`PQ.Parse.parseStruct`, compared with the Go function on every run).  So two
+sets of struct declarations with the same field tree give the same generated code, hence
+byte-identical files for corresponding values.  The theorems below are about that field tree.
+
+* `getFields_insert`, `excluded_inert`: inserting an unexported field, an unexported embedded type,
+  or a field tagged `parquet:"-"` (whatever its type, its other tags, its position, and whichever
+  declaration it is inserted into) does not change the field tree of any type.
+  `getChildren_congr'`: the recursive resolution sees declarations only through their name and
+  `getFields`.
+* `embed_eq_inline_fuel`, `embed_eq_inline`: moving a run of fields into a new struct type that is
+  embedded in their place does not change the field tree.
+* `tag_dash_anywhere`: `parquet:"-"` is recognised after other key/value pairs of the tag.
+-/
+namespace PQ.C14
+open PQ.Parse
+
+/-- a field declaration the generator has to ignore: an unexported field, an unexported embedded
+type, or a field tagged `parquet:"-"` -/
+def Excluded (priv : String → Bool) (x : FieldDecl) : Prop :=
+  (∃ n, x.names = [n] ∧ priv n = true) ∨ (x.names = [] ∧ priv (printed x.ty) = true) ∨
+  (∃ t, x.tag = some t ∧ parseTag t = "-")
+
+/-- an excluded declaration contributes no field (any type expression, any other tag content) -/
+theorem excluded_contributes_nothing (priv : String → Bool) (x : FieldDecl) (hx : Excluded priv x) (name : String) :
+    getFields priv { name := name, fields := [x] } = [] := by
+  rcases hx with ⟨n, h1, h2⟩ | ⟨h1, h2⟩ | ⟨t, h1, h2⟩
+  · exact gf1_private priv x n h1 h2
+  · exact gf1_private_embedded priv x h1 h2
+  · exact gf1_dash priv x t h1 h2
+
+/-- **inserting an excluded field at any position of a struct leaves its direct fields unchanged** -/
+theorem getFields_insert (priv : String → Bool) (d : TypeDecl) (pos : Nat) (x : FieldDecl) (hx : Excluded priv x) :
+    getFields priv { d with fields := d.fields.insertIdx pos x } = getFields priv d := by
+  have h0 : gf1 priv x = [] := excluded_contributes_nothing priv x hx ""
+  rw [getFields_eq_gfl, getFields_eq_gfl]
+  rcases insertIdx_eq _ d.fields x pos with h | ⟨a, b, h1, h2⟩
+  · rw [h]
+  · show gfl priv (d.fields.insertIdx pos x) = _
+    rw [h2, h1, gfl_insert priv x h0]
+
+/-- **`getChildren` looks at declarations only through `name` and `getFields`**: replacing
+declarations, position by position, by ones with the same name and the same direct fields changes
+nothing, for every fuel and every type -/
+theorem getChildren_congr' (priv : String → Bool) (ds ds' : List TypeDecl) (h : DeclsEquiv priv ds ds')
+    (fuel : Nat) (ty : String) : getChildren priv ds fuel ty = getChildren priv ds' fuel ty :=
+  getChildren_congr h fuel ty
+
+/-- **excluded fields are inert**: inserting an excluded field declaration at any position of any
+struct declaration (`d`, anywhere in the list — reached through any chain of fields or not at all)
+leaves the field tree of every type `typ` unchanged -/
+theorem excluded_inert (priv : String → Bool) (A B : List TypeDecl) (d : TypeDecl) (pos : Nat) (x : FieldDecl)
+    (hx : Excluded priv x) (typ : String) :
+    parseStruct priv (A ++ { d with fields := d.fields.insertIdx pos x } :: B) typ = parseStruct priv (A ++ d :: B) typ := by
+  apply parseStruct_congr
+  apply DeclsEquiv.append (DeclsEquiv.refl priv A)
+  exact ⟨rfl, getFields_insert priv d pos x hx, DeclsEquiv.refl priv B⟩
+
+/-- any number of insertions in any declarations: declarations with the same names and the same
+direct fields have the same field trees -/
+theorem excluded_inert_many (priv : String → Bool) (ds ds' : List TypeDecl) (h : DeclsEquiv priv ds ds') (typ : String) :
+    parseStruct priv ds typ = parseStruct priv ds' typ := parseStruct_congr h typ
+
+/-- A field with several names (`A, B int32`) is dropped as well — by `parse.go` and by the model
+(`len(x.Names) == 1` / `== 0` are the only cases handled). -/
+theorem multi_name_dropped (priv : String → Bool) (x : FieldDecl) (h : 2 ≤ x.names.length) (name : String) :
+    getFields priv { name := name, fields := [x] } = [] := gf1_multi priv x h
+
+/-- **embedding = inlining, fuel explicit.**  `d = struct s { pre; run; post }` is replaced by
+`struct s { pre; En; post }` and `struct En { run }` is added.  `en` is a new type name: exported,
+not a primitive type name, not used as the type of a field (`hunused`; otherwise a field that was
+dropped as "unsupported type" would start to resolve).  The declarations are acyclic with depth
+bound `rank`.  Then `getChildren` returns the same tree for every type other than `en` itself,
+provided the fuel exceeds the depth (one more level for the new declarations: the hop through `En`).
+No restriction on `run`: it may contain embedded fields, excluded fields, anything. -/
+theorem embed_eq_inline_fuel (priv : String → Bool) (A B : List TypeDecl) (s en : String) (pre run post : List FieldDecl)
+    (rank : String → Nat)
+    (hunused : ∀ x ∈ A ++ { name := s, fields := pre ++ run ++ post } :: B, ∀ c ∈ getFields priv x, c.ty ≠ en)
+    (hpriv : priv en = false) (hprim : primitives.contains en = false) (hdash : en ≠ "-")
+    (hr : Ranked priv (A ++ { name := s, fields := pre ++ run ++ post } :: B) rank)
+    (ty : String) (hne : ty ≠ en) (f f' : Nat) (hf : rank ty < f) (hf' : rank ty + 1 < f') :
+    getChildren priv ({ name := en, fields := run } ::
+        (A ++ { name := s, fields := pre ++ [{ names := [], ty := .ident en, tag := none }] ++ post } :: B)) f' ty
+      = getChildren priv (A ++ { name := s, fields := pre ++ run ++ post } :: B) f ty :=
+  embed_getChildren priv A B s en pre run post rank hunused hpriv hprim hdash hr (rank ty + 1) ty (Nat.lt_succ_self _) hne f f' hf
+    (by split <;> omega)
+
+/-- **embedding = inlining** for `parse.Fields`: under the depth hypothesis `rank typ ≤ decls.length`
+(the fuel `decls.length + 1` of `parseStruct` suffices for the original declarations; Go recurses
+without a bound and does not terminate on cyclic declarations) -/
+theorem embed_eq_inline (priv : String → Bool) (A B : List TypeDecl) (s en : String) (pre run post : List FieldDecl)
+    (rank : String → Nat)
+    (hunused : ∀ x ∈ A ++ { name := s, fields := pre ++ run ++ post } :: B, ∀ c ∈ getFields priv x, c.ty ≠ en)
+    (hpriv : priv en = false) (hprim : primitives.contains en = false) (hdash : en ≠ "-")
+    (hr : Ranked priv (A ++ { name := s, fields := pre ++ run ++ post } :: B) rank)
+    (typ : String) (hne : typ ≠ en)
+    (hdepth : rank typ ≤ (A ++ { name := s, fields := pre ++ run ++ post } :: B : List TypeDecl).length) :
+    parseStruct priv ({ name := en, fields := run } ::
+        (A ++ { name := s, fields := pre ++ [{ names := [], ty := .ident en, tag := none }] ++ post } :: B)) typ
+      = parseStruct priv (A ++ { name := s, fields := pre ++ run ++ post } :: B) typ := by
+  unfold parseStruct
+  apply embed_eq_inline_fuel priv A B s en pre run post rank hunused hpriv hprim hdash hr typ hne
+  · omega
+  · simp only [List.length_cons, List.length_append] at hdepth ⊢; omega
+
+/-- for the working tree's exported-ness test the side conditions on `en` follow from `en` being a
+capitalised identifier: `isPrivateUpper en = false` already excludes the primitive type names (all
+lower case); `"-"` is not excluded by it and stays a hypothesis -/
+theorem upper_not_primitive (en : String) (h : isPrivateUpper en = false) : primitives.contains en = false := by
+  cases hc : primitives.contains en with
+  | false => rfl
+  | true =>
+    have hm : en ∈ primitives := by simpa using hc
+    simp only [primitives, List.mem_cons, List.mem_nil_iff, or_false] at hm
+    rcases hm with h' | h' | h' | h' | h' | h' | h' | h' <;> (rw [h'] at h; revert h; decide)
+
+/-- **`parquet:"-"` is found after other key/value pairs**: for a tag `pre ++ parquet:"-" ++ post`
+where `parquet:"` does not occur in `pre` (e.g. `` `json:"x" parquet:"-"` ``), `parseTag` is `"-"` -/
+theorem tag_dash_anywhere (pre post : String) (hpre : ¬ "parquet:\"".toList <:+: pre.toList) :
+    parseTag (pre ++ "parquet:\"-\"" ++ post) = "-" := by
+  have := parseTag_spec (pre ++ "parquet:\"-\"" ++ post) pre.toList ['-'] post.toList
+    (by simp only [String.toList_append]
+        have : "parquet:\"-\"".toList = tagSep ++ (['-'] ++ ['"']) := by decide
+        rw [this]; simp)
+    hpre (by decide) (by decide)
+  rw [this]
+
+/-- the field is then dropped, whatever else the tag says -/
+theorem tag_dash_excluded (priv : String → Bool) (pre post : String) (hpre : ¬ "parquet:\"".toList <:+: pre.toList)
+    (names : List String) (ty : TExpr) :
+    Excluded priv { names := names, ty := ty, tag := some (pre ++ "parquet:\"-\"" ++ post) } :=
+  Or.inr (Or.inr ⟨_, rfl, tag_dash_anywhere pre post hpre⟩)
+
+/-! ## Examples: the repository's `Person` (parquet_test.go) -/
+
+section examples
+
+def fd (n : String) (ty : TExpr) (tag : String) : FieldDecl := { names := [n], ty := ty, tag := some tag }
+
+def being : TypeDecl := { name := "Being", fields :=
+  [fd "ID" (.ident "int32") "parquet:\"id\"", fd "Name" (.ident "string") "parquet:\"name\"",
+   fd "Age" (.star (.ident "int32")) "parquet:\"age\""] }
+
+def hobby : TypeDecl := { name := "Hobby", fields :=
+  [fd "Name" (.ident "string") "parquet:\"name\"", fd "Difficulty" (.star (.ident "int32")) "parquet:\"difficulty\""] }
+
+/-- `Person` as declared: embedded `Being`, `Secret` tagged `parquet:"-"` (after a json pair), an
+unexported field of an arbitrary type, an untagged field -/
+def personFields (mid : List FieldDecl) : List FieldDecl :=
+  mid ++
+  [fd "Happiness" (.ident "int64") "parquet:\"happiness\"",
+   fd "Code" (.star (.ident "string")) "parquet:\"code\"",
+   fd "Hobby" (.star (.ident "Hobby")) "parquet:\"hobby\"",
+   fd "Friends" (.arr (.ident "Being")) "parquet:\"friends\"",
+   { names := ["Sleepy"], ty := .ident "bool", tag := none }]
+
+def secret : FieldDecl := fd "Secret" (.ident "string") "json:\"secret\" parquet:\"-\""
+def unexported : FieldDecl := { names := ["cache"], ty := .mapT (.ident "string") (.funcT [.ident "int64"]), tag := none }
+
+def person : TypeDecl := { name := "Person", fields := personFields [embDecl "Being"] }
+def personInline : TypeDecl := { name := "Person", fields := personFields being.fields }
+def personNoisy : TypeDecl := { name := "Person", fields := ((personFields [embDecl "Being"]).insertIdx 3 secret).insertIdx 1 unexported }
+
+example : parseTag "json:\"secret\" parquet:\"-\"" = "-" := tag_dash_anywhere "json:\"secret\" " "" (not_infix_of_occurs (by decide))
+example : Excluded isPrivateUpper secret := Or.inr (Or.inr ⟨_, rfl, by rw [parseTag_eq]; decide⟩)
+example : Excluded isPrivateUpper unexported := Or.inl ⟨"cache", rfl, by decide⟩
+
+/-- the field tree of `Person`, evaluated: `Being`'s fields come first, hoisted; `Hobby` is an optional
+group; `Friends` a repeated group -/
+example : flatFs 0 (parseStruct isPrivateUpper [person, being, hobby] "Person") =
+    [(0, "ID", "id", "int32", .req, false), (0, "Name", "name", "string", .req, false), (0, "Age", "age", "int32", .opt, false),
+     (0, "Happiness", "happiness", "int64", .req, false), (0, "Code", "code", "string", .opt, false),
+     (0, "Hobby", "hobby", "Hobby", .opt, false),
+       (1, "Name", "name", "string", .req, false), (1, "Difficulty", "difficulty", "int32", .opt, false),
+     (0, "Friends", "friends", "Being", .rpt, false),
+       (1, "ID", "id", "int32", .req, false), (1, "Name", "name", "string", .req, false), (1, "Age", "age", "int32", .opt, false),
+     (0, "Sleepy", "Sleepy", "bool", .req, false)] := by
+  rw [parseStructL_eq]; decide
+
+/-- excluded fields: by the theorem (twice) -/
+example : parseStruct isPrivateUpper [personNoisy, being, hobby] "Person" = parseStruct isPrivateUpper [person, being, hobby] "Person" := by
+  have h1 := excluded_inert isPrivateUpper [] [being, hobby] person 3 secret (Or.inr (Or.inr ⟨_, rfl, by rw [parseTag_eq]; decide⟩)) "Person"
+  have h2 := excluded_inert isPrivateUpper [] [being, hobby] { person with fields := person.fields.insertIdx 3 secret } 1 unexported
+    (Or.inl ⟨"cache", rfl, by decide⟩) "Person"
+  exact h2.trans h1
+
+/-- … and by evaluation -/
+example : flatFs 0 (parseStruct isPrivateUpper [personNoisy, being, hobby] "Person") =
+    flatFs 0 (parseStruct isPrivateUpper [person, being, hobby] "Person") := by
+  rw [parseStructL_eq, parseStructL_eq]; decide
+
+/-- embedding `Being` = declaring `ID`, `Name`, `Age` inline: by evaluation -/
+example : flatFs 0 (parseStruct isPrivateUpper [person, being, hobby] "Person") =
+    flatFs 0 (parseStruct isPrivateUpper [personInline, being, hobby] "Person") := by
+  rw [parseStructL_eq, parseStructL_eq]; decide
+
+/-- … and by the theorem: `Person` with the three fields inline vs `Person` embedding a new type `Core`
+that declares them (`rank`: `Person` has depth 1, the other types 0) -/
+example : parseStruct isPrivateUpper
+      [{ name := "Core", fields := being.fields }, { name := "Person", fields := [] ++ [embDecl "Core"] ++ personFields [] }, being, hobby] "Person"
+    = parseStruct isPrivateUpper [{ name := "Person", fields := [] ++ being.fields ++ personFields [] }, being, hobby] "Person" :=
+  embed_eq_inline isPrivateUpper [] [being, hobby] "Person" "Core" [] being.fields (personFields [])
+    (fun t => if t = "Person" then 1 else 0)
+    (unused_of_unusedB (by decide)) (by decide) (by decide) (by decide) (ranked_of_rankedB (by decide)) "Person" (by decide) (by decide)
+
+/-! ### the side conditions of `embed_eq_inline` are needed -/
+
+/-- `hunused`: a field of the (so far undeclared, hence dropped) type `Core` starts to resolve once
+`Core` is introduced -/
+example :
+    flatFs 0 (parseStruct isPrivateUpper [{ name := "T", fields := [fd "A" (.ident "int32") "parquet:\"a\"", fd "Q" (.ident "Core") "parquet:\"q\""] }] "T")
+      = [(0, "A", "a", "int32", .req, false)] ∧
+    flatFs 0 (parseStruct isPrivateUpper [{ name := "Core", fields := [fd "A" (.ident "int32") "parquet:\"a\""] },
+        { name := "T", fields := [embDecl "Core", fd "Q" (.ident "Core") "parquet:\"q\""] }] "T")
+      = [(0, "A", "a", "int32", .req, false), (0, "Q", "q", "Core", .req, false), (1, "A", "a", "int32", .req, false)] := by
+  rw [parseStructL_eq, parseStructL_eq]; constructor <;> decide
+
+/-- `typ ≠ en`: the new type itself has a field tree only after the change -/
+example :
+    flatFs 0 (parseStruct isPrivateUpper [{ name := "T", fields := [fd "A" (.ident "int32") "parquet:\"a\""] }] "Core") = [] ∧
+    flatFs 0 (parseStruct isPrivateUpper [{ name := "Core", fields := [fd "A" (.ident "int32") "parquet:\"a\""] },
+        { name := "T", fields := [embDecl "Core"] }] "Core") = [(0, "A", "a", "int32", .req, false)] := by
+  rw [parseStructL_eq, parseStructL_eq]; constructor <;> decide
+
+end examples
+
+end PQ.C14
